@@ -506,7 +506,8 @@ theorem ei_runBodyL {l : M Unit} (hl : EnvIrrel l) : EnvIrrel (runBodyL l) :=
 theorem ei_runLoopL {l : M Unit} (hl : EnvIrrel l) : EnvIrrel (runLoopL l) :=
   ei_tryC (ei_bind (ei_runBodyL hl) (fun _ => ei_selClose)) ei_runFinally
 
-theorem ei_afterConnectL {l : M Unit} (hl : EnvIrrel l) (proxy : Bool) : EnvIrrel (afterConnectL l proxy) := by
+theorem ei_afterConnectL {l : M Unit} (hl : EnvIrrel l) (proxy : Bool) (sel : Bool) :
+    EnvIrrel (afterConnectL l proxy sel) := by
   unfold afterConnectL
   refine ei_bind (ei_modS (fun _ _ => rfl)) (fun _ => ei_getS_bind (fun _ _ => rfl) (fun s =>
     ei_bind (ei_write _ _) (fun r => ?_)))
@@ -520,9 +521,10 @@ theorem ei_runL {l : M Unit} (hl : EnvIrrel l) : EnvIrrel (runL l) := by
   split
   · exact ei_yieldEv _
   · exact ei_yieldEv _
-  · exact ei_afterConnectL hl _
+  · exact ei_afterConnectL hl _ _
+  · exact ei_afterConnectL (ei_throwE _) _ _
 
-theorem afterConnect_eq_L (proxy : Bool) (s : Sys) : afterConnect proxy s = afterConnectL (loop s.env) proxy s := by
+theorem afterConnect_eq_L (proxy : Bool) (s : Sys) : afterConnect proxy s = afterConnectL (loop s.env) proxy true s := by
   unfold afterConnect afterConnectL
   have h0 : modS (fun s => { s with sockOpen := true }) s = .ok () { s with sockOpen := true } := rfl
   rw [bind_ok h0, bind_ok h0]
@@ -556,5 +558,6 @@ theorem run_eq_runL (s : Sys) : run s = runL (loop s.env) s := by
     | socketFail => rfl
     | otherFail => rfl
     | ok proxy => simp only []; rw [afterConnect_eq_L, e1]
+    | selFail proxy => rfl
 
 end Lomond.Core.Monitor
